@@ -89,7 +89,7 @@ def one(rng, sc, to, mode):
 
 
 def gen(rng, tier):
-    reps = {"quick": 1, "thorough": 12, "search": 6}[tier]
+    reps = {"quick": 2, "thorough": 80, "search": 10}[tier]
     i = 0
     for _ in range(reps):
         for sc in SCEN:
